@@ -6,6 +6,10 @@ From SygmaV Require Export Lib.RunLib Model.C17.
 Local Open Scope N_scope.
 
 Inductive case :=
+(* also the scripted interleavings (two operations on the same proposals meeting inside a call, made by two
+   goroutines on one executor): the operations in the order in which they COMPLETED, with the store
+   contents after each - an admissible outcome is the atomic model of that order
+   (C17_script_judge_accepts / C17_script_executed_absorbing) *)
 | Hist (init : kv) (faults : list bool) (ops : list op) (impl : list obs)
 (* goroutines sharing one store: per thread its own keys, fault schedule, operations and what it
    observed (store contents: the keys it can name); the whole store at the end; the number of store
